@@ -621,6 +621,30 @@ pub fn scenarios(tier: &str) -> Vec<Scenario> {
             writer: 0,
         },
         Scenario {
+            // three compactions in flight: the second one (disjoint inputs in L4) starts while the first
+            // holds the L0 tables hidden; the third asks for the first one's inputs again and must be
+            // declined for as long as the first is running
+            name: "S9-three-compactions-flush-reader".into(),
+            cfg: cfg.clone(),
+            preload: vec![
+                Op::Put { k: 1, big: false },
+                fl.clone(),
+                Op::MoveDown { from: 0, to: 4, w: Wm::Zero },
+                Op::Put { k: 0, big: false },
+                fl.clone(),
+                Op::Put { k: 0, big: false },
+                fl.clone(),
+            ],
+            threads: vec![
+                vec![Step::Put { k: 0 }, Step::RotateFlush { safe_wm: false }],
+                vec![Step::PullDown { from: 0, to: 2 }],
+                vec![Step::PullDown { from: 4, to: 5 }],
+                vec![Step::PullDown { from: 0, to: 2 }],
+                vec![Step::Read],
+            ],
+            writer: 0,
+        },
+        Scenario {
             name: "S4-writer-flusher-major-reader".into(),
             cfg: cfg.clone(),
             preload: preload.clone(),
